@@ -2,7 +2,7 @@
    ONLY statements: each theorem is closed by `exact` of a lemma proved elsewhere and followed by Print Assumptions. *)
 From Coq Require Import ZArith NArith List Bool Lia Permutation FMapPositive.
 Import ListNotations.
-Require Import Base Strings Builtins Interp Machine Spec HeapFacts Refine1 Refine2 Refine3 Refine4 LinkStack Events Progress RunG FuelMono Loops Float Num Arith Loops2.
+Require Import Base Strings Builtins Interp Machine Spec HeapFacts Refine1 Refine2 Refine3 Refine4 LinkStack Events Progress RunG FuelMono Loops Float Num Arith Loops2 SeqProofs CallRules.
 Open Scope Z_scope.
 (* every intermediate machine state has at most 1 + d frames, d the NON-TAIL demand depth of the big-step run (a tail-returned thunk costs nothing) *)
 Theorem machine_implements_spec fuel prog stdin h' w' r d :
@@ -72,4 +72,10 @@ Theorem countdown_runs  :
   = [Some (inl (VStr [48%N]), 4%nat); Some (inl (VStr [48%N]), 5%nat); Some (inl (VStr [48%N]), 5%nat); Some (inl (VStr [48%N]), 5%nat)].
 Proof. exact (Loops2.countdown_runs ). Qed.
 Print Assumptions countdown_runs.
+
+(* a call through a pipe stays a tail call: the pipe returns what its LAST stage returned, as it is (a delayed call is handed back, not evaluated inside the pipe's frame) *)
+Theorem call_pipe rec ip h w sp i es argv :
+  runG rec value ip h w (apply_body (EFun (FPipe i es)) sp argv) = pipe_spec rec ip sp es h w argv.
+Proof. exact (CallRules.call_pipe rec ip h w sp i es argv). Qed.
+Print Assumptions call_pipe.
 
